@@ -402,6 +402,7 @@ pub open spec fn sharded_frame(old: World, fin: World, root: PathV, n: usize, na
     P2 = 'entry_in(self.spec_root(), %s, str_bytes(key.name))' % S2
     NAMEOK = 'valid_key(str_bytes(key.name))'
     BADNAME = '(!first_byte_ok(str_bytes(key.name)) || str_bytes(key.name).contains(0x2fu8))'
+    REJ = '(err_kind(err_of(r)) == ErrorKind::InvalidInput)'   # the error is a rejected name (whatever the validation rejects)
 
     # ---- lookups -----------------------------------------------------------------------------
     for opname in ('get', 'touch'):
@@ -418,7 +419,7 @@ pub open spec fn sharded_frame(old: World, fin: World, root: PathV, n: usize, na
              'final(w).atime_only(*old(w)) && forall|i: InodeId| #[trigger] old(w).inodes.contains_key(i) ==> '
              '(final(w).inodes[i].atime != old(w).inodes[i].atime ==> (old(w).files.contains_key(%s) && i == old(w).files[%s]) '
              '|| (old(w).files.contains_key(%s) && i == old(w).files[%s]))' % (P1, P1, P2, P2)),
-            ('C18 C05:error-is-an-invalid-name-or-a-real-fault', 'r.is_err() ==> %s || final(w).hard_faults > old(w).hard_faults' % BADNAME),
+            ('C18 C05:error-is-an-invalid-name-or-a-real-fault', 'r.is_err() ==> %s || final(w).hard_faults > old(w).hard_faults' % REJ),
         ]
         if opname == 'get':
             ens += [
@@ -540,7 +541,7 @@ pub open spec fn sharded_frame(old: World, fin: World, root: PathV, n: usize, na
                 ('C17 C15 C16:everything-that-changes-is-inside-the-shard-directories-of-this-cache',
                  'sharded_frame(*old(w), *final(w), self.spec_root(), self.spec_n(), str_bytes(key.name), pv(value))'),
                 ('C18 C05:error-is-explained',
-                 'r.is_err() ==> %s || final(w).hard_faults > old(w).hard_faults || !final(w).files.contains_key(pv(value))' % BADNAME),
+                 'r.is_err() ==> %s || final(w).hard_faults > old(w).hard_faults || !final(w).files.contains_key(pv(value))' % REJ),
                 ('C06 C20:filesystem-calls-are-a-constant-plus-three-per-directory-item-read-by-maintenance',
                  'final(w).steps <= old(w).steps + %d + 3 * (final(w).listed - old(w).listed) && final(w).opens <= old(w).opens + 4' % (nsteps + 8)),
             ])
